@@ -74,6 +74,80 @@ def run_sequential(S, case):
         shutil.rmtree(out, ignore_errors=True)
 
 
+def run_interleaved(S, case):
+    """Interleavings at lock-operation granularity, deterministically: whenever a locked action of the collecting round has released its lock, another
+    process may append (the lock is free, so this is a legal schedule).  No threads: the appends are injected right after the lock release."""
+    rng = random.Random(case["seed"])
+    out = Path(tempfile.mkdtemp(prefix="verif-agg-"))
+    failed = []
+    orig = ResultsAggregator._do_action_under_lock
+    state = {"depth": 0, "collecting": False, "pending": [], "appended": [], "reported_early": [], "armed": False}
+
+    def wrapper(self, func, *args, **kwargs):
+        # symmetric case: a runner is about to take its file's lock - the collecting round on another node may get there first
+        if (not state["collecting"] and not state.get("injecting") and getattr(func, "__name__", "") == "_append_result"
+                and state.get("armed") and rng.random() < case["p_inject"]):
+            state["injecting"] = True
+            try:
+                state["reported_early"] += ResultsAggregator.load(out).process_results()
+            finally:
+                state["injecting"] = False
+        state["depth"] += 1
+        try:
+            return orig(self, func, *args, **kwargs)
+        finally:
+            state["depth"] -= 1
+            # the lock was just released: a runner on another node gets its turn
+            if state["collecting"] and not state.get("injecting") and state["pending"] and rng.random() < case["p_inject"]:
+                state["injecting"] = True
+                try:
+                    b, r = state["pending"].pop()
+                    ResultsAggregator.append(out, r, batch_id=b)
+                    state["appended"].append(r)
+                finally:
+                    state["injecting"] = False
+    ResultsAggregator._do_action_under_lock = wrapper
+    try:
+        (out / RESULTS_DIR).mkdir()
+        ResultsAggregator.create(out)
+        reported = state["reported_early"]
+        state["armed"] = True
+        k = 0
+        for rnd in range(case["rounds"]):
+            for _ in range(rng.randint(0, 3)):           # rows written before the round starts
+                r = mk(rng, k); k += 1
+                ResultsAggregator.append(out, r, batch_id=rng.randint(1, case["batches"]))
+                state["appended"].append(r)
+            state["pending"] = [(rng.randint(1, case["batches"]), mk(rng, 1000 + 10 * rnd + i)) for i in range(rng.randint(0, 3))]
+            state["collecting"] = True
+            try:
+                reported += ResultsAggregator.load(out).process_results()
+            except Exception as exc:  # noqa: BLE001
+                failed.append(f"round {rnd} raised {type(exc).__name__}: {exc}")
+                break
+            finally:
+                state["collecting"] = False
+            for b, r in state["pending"]:                # whatever did not get its turn during the round is written after it
+                ResultsAggregator.append(out, r, batch_id=b)
+                state["appended"].append(r)
+            state["pending"] = []
+        if not failed:
+            try:
+                reported += ResultsAggregator.load(out).process_results()
+                finish(out, state["appended"], reported, failed)
+            except Exception as exc:  # noqa: BLE001
+                failed.append(f"final round raised {type(exc).__name__}: {exc}")
+        return {"pre_ok": True, "ok": not failed, "failed": failed}
+    finally:
+        ResultsAggregator._do_action_under_lock = orig
+        shutil.rmtree(out, ignore_errors=True)
+
+
+def cases_interleaved(tier, rng):
+    for i in range(150 if tier == "quick" else 3000):
+        yield {"seed": rng.randint(0, 10**9), "rounds": rng.randint(1, 3), "batches": rng.randint(1, 2), "p_inject": rng.choice([0.3, 0.6, 1.0])}
+
+
 def cases_sequential(tier, rng):
     for i in range(120 if tier == "quick" else 3000):
         yield {"seed": rng.randint(0, 10**9), "steps": rng.randint(1, 14), "batches": rng.randint(1, 3), "p_collect": rng.choice([0.1, 0.3, 0.5])}
@@ -136,4 +210,5 @@ def cases_concurrent(tier, rng):
 HARNESSES = {
     "RAgg._process_results": (cases_sequential, run_sequential),
     "RAgg._move_results": (cases_concurrent, run_concurrent),
+    "RAgg.move_results": (cases_interleaved, run_interleaved),
 }
